@@ -195,3 +195,65 @@ func ZvC19_S2_DList() {
 	}
 	vrt.Cover("C19/DList/end")
 }
+
+// ZvC19_LongRun_DList: one long scenario beyond the history bound — 60 edits with concrete, pairwise
+// distinct values driven by a fixed script (all eight edit kinds, handles taken from Find right
+// before use, every position incl. first and last) against a slice model, the list read back
+// through Each/First/Last after every edit. Concrete values: nothing forks.
+func ZvC19_LongRun_DList() {
+	next := 100
+	fresh := func() int { next++; return next }
+	x0 := fresh()
+	l := InitDList(x0)
+	ref := []int{x0}
+	for s := 0; s < 60; s++ {
+		op := (s*5 + 1) % 8
+		if len(ref) < 3 {
+			op = s % 2 // grow first
+		}
+		pos := (s * 3) % len(ref)
+		switch op {
+		case 0:
+			x := fresh()
+			l.Unshift(x)
+			ref = zvInsert(ref, 0, x)
+		case 1:
+			x := fresh()
+			l.Append(x)
+			ref = append(ref, x)
+		case 2:
+			nd := l.Shift()
+			vrt.Assert(vrt.And(nd != nil, l.Val(nd) == ref[0]), "C19/DList/long-run/Shift-returns-first")
+			ref = ref[1:]
+		case 3:
+			l.Pop()
+			ref = ref[:len(ref)-1]
+		case 4:
+			x := fresh()
+			nd, ok := l.Find(ref[pos])
+			vrt.Assert(ok, "C19/DList/long-run/Find-present")
+			vrt.Assert(l.InsertAfter(nd, x) == nil, "C19/DList/long-run/InsertAfter")
+			ref = zvInsert(ref, pos+1, x)
+		case 5:
+			x := fresh()
+			nd, ok := l.Find(ref[pos])
+			vrt.Assert(ok, "C19/DList/long-run/Find-present")
+			vrt.Assert(l.InsertBefore(nd, x) == nil, "C19/DList/long-run/InsertBefore")
+			ref = zvInsert(ref, pos, x)
+		case 6:
+			nd, ok := l.Find(ref[pos])
+			vrt.Assert(ok, "C19/DList/long-run/Find-present")
+			vrt.Assert(l.Delete(nd) == nil, "C19/DList/long-run/Delete")
+			ref = zvRemove(ref, pos)
+		case 7:
+			z := fresh()
+			vrt.Assert(l.Replace(ref[pos], z) == nil, "C19/DList/long-run/Replace")
+			ref = append([]int(nil), ref...)
+			ref[pos] = z
+		}
+		var got []int
+		l.Each(func(v int) { got = append(got, v) })
+		vrt.Assert(vrt.SeqEqInt(got, ref), "C19/DList/long-run/sequence")
+		vrt.Assert(vrt.And(l.First() == ref[0], l.Last() == ref[len(ref)-1]), "C19/DList/long-run/First-Last")
+	}
+}
